@@ -113,7 +113,9 @@ def h_concrete_overrank(ctx):
     # (rank profiles that grow along the train with a cap between the largest rank and m: the blocks are compressed)
     for n, rho, m, cap in [([4, 4, 4], 1, 2, 1e12), ([4, 4, 4], 2, 3, 1e12), ([5, 4, 5, 4], 2, 3, 1e12), ([4, 4, 4], 1, 3, 3),
                            ([4, 5, 4], 2, 4, 4), ([4, 4, 4], [1, 1, 2, 1], 3, 2), ([5, 5, 5, 5], [1, 1, 2, 3, 1], 4, 3),
-                           ([4, 4, 4], [1, 2, 3, 1], 4, 3)]:
+                           ([4, 4, 4], [1, 2, 3, 1], 4, 3),
+                           # two dimensions with several samples per mode (the first block is n0 x m)
+                           ([5, 4], 2, 2, 1e12), ([4, 6], 2, 3, 1e12), ([6, 5], 1, 3, 2)]:
         for seed in range(6):
             T = teneva.rand(n, rho, seed=100 + seed)
             # integer seeds, generator objects (prefix sets of consecutive blocks are then independent draws), no seed
